@@ -2,18 +2,18 @@
 # tools/confirm_seed.sh <Cxx> <A|B>  — confirms a sub-agent's seeded change in its scratch worktree /tmp/wt/<Cxx> and,
 # when all three facts hold (demo passes clean, demo fails changed, 87 stable tests pass changed), stores it under /verif/seeded/<Cxx>-<A|B>/
 set -u
-P="$1"; V="$2"; WT=/tmp/wt/$P; S=$WT/seed/$V
+P="$1"; V="$2"; WT=${WTROOT:-/tmp/wt}/$P; S=$WT/seed/$V
 [ -f "$S/patch.diff" ] || { echo "$P-$V: no patch"; exit 2; }
 cd "$WT" && git checkout -q -- hta && git apply --check "$S/patch.diff" || { echo "$P-$V: patch does not apply"; exit 2; }
 run_demo() { (cd "$WT" && PYTHONPATH=$WT timeout 300 /venv/bin/python "$S/demo.py" >/dev/null 2>&1; echo $?); }
 clean=$(run_demo)
 git apply "$S/patch.diff"
 changed=$(run_demo)
-(cd "$WT" && PYTHONPATH=$WT /venv/bin/python -m pytest -q -p no:cacheprovider --timeout=900 --continue-on-collection-errors --junitxml=/tmp/wt/junit_$P$V.xml >/dev/null 2>&1)
-missing=$(/venv/bin/python - "$P$V" <<'PY'
+(cd "$WT" && PYTHONPATH=$WT /venv/bin/python -m pytest -q -p no:cacheprovider --timeout=900 --continue-on-collection-errors --junitxml=${WTROOT:-/tmp/wt}/junit_$P$V.xml >/dev/null 2>&1)
+missing=$(/venv/bin/python - "$P$V" "${WTROOT:-/tmp/wt}" <<'PY'
 import json, sys, xml.etree.ElementTree as ET
 b=json.load(open('/root/.vp/BASELINE.json'))
-t=ET.parse(f'/tmp/wt/junit_{sys.argv[1]}.xml').getroot()
+t=ET.parse(f'{sys.argv[2]}/junit_{sys.argv[1]}.xml').getroot()
 res={}
 for tc in t.iter('testcase'):
     res[f"{tc.get('classname')}::{tc.get('name')}"]= not any(c.tag in('failure','error','skipped') for c in tc)
@@ -21,7 +21,7 @@ print(len([s for s in b['stable_pass'] if not res.get(s)]))
 PY
 )
 git checkout -q -- hta
-rm -f /tmp/wt/junit_$P$V.xml
+rm -f ${WTROOT:-/tmp/wt}/junit_$P$V.xml
 echo "$P-$V: demo_clean_exit=$clean demo_changed_exit=$changed stable_tests_failing=$missing"
 if [ "$clean" = "0" ] && [ "$changed" != "0" ] && [ "$missing" = "0" ]; then
   D=/verif/seeded/$P-$V; mkdir -p "$D"; cp "$S/patch.diff" "$D/patch.diff"; cp "$S/demo.py" "$D/demo.py"; cp "$S/README.md" "$D/README.agent.md" 2>/dev/null
@@ -29,7 +29,7 @@ if [ "$clean" = "0" ] && [ "$changed" != "0" ] && [ "$missing" = "0" ]; then
 import json, sys
 p,v,c,ch=sys.argv[1:5]
 json.dump({"property":p,"variant":v,"breaks":"see README.agent.md (written by the independent sub-agent)","needs_to_manifest":"see README.agent.md",
- "confirmed_by":"tools/confirm_seed.sh in scratch worktree /tmp/wt/%s: demo exit %s on clean tree, exit %s with patch, 0 of 87 stable tests failing with patch"%(p,c,ch),
+ "confirmed_by":"tools/confirm_seed.sh in scratch worktree <wtroot>/%s: demo exit %s on clean tree, exit %s with patch, 0 of 87 stable tests failing with patch"%(p,c,ch),
  "detected_by": None}, open(f"/verif/seeded/{p}-{v}/meta.json","w"), indent=1)
 PY
   echo "$P-$V: KEPT"
